@@ -365,7 +365,7 @@ class CookieJar(AbstractCookieJar):
             path = cookie["path"]
             if not path or path[0] != "/":
                 # Set the cookie's path to the response path
-                path = response_url.path
+                path = response_url.raw_path
                 if not path.startswith("/"):
                     path = "/"
                 else:
@@ -466,11 +466,11 @@ class CookieJar(AbstractCookieJar):
             )
 
         # Get all the path prefixes that might match a cookie (e.g. "", "/foo", "/foo/bar")
-        paths = itertools.accumulate(request_url.path.split("/"), _FORMAT_PATH)
+        paths = itertools.accumulate(request_url.raw_path.split("/"), _FORMAT_PATH)
         # Create every combination of (domain, path) pairs.
         pairs = itertools.product(domains, paths)
 
-        path_len = len(request_url.path)
+        path_len = len(request_url.raw_path)
         # Point 2: https://www.rfc-editor.org/rfc/rfc6265.html#section-5.4
         for p in pairs:
             if p not in self._cookies:
